@@ -412,6 +412,7 @@ namespace sim
 	struct SIMULATOR_DECL basic_resolver
 	{
 		basic_resolver(io_context& ios);
+		~basic_resolver();
 
 		using protocol_type = Protocol;
 		using results_type = std::vector<basic_resolver_entry<Protocol>, aux::mallocator<basic_resolver_entry<Protocol>>>;
